@@ -217,7 +217,7 @@ int main(int argc, char **argv)
     /* legs: C31_LEG=main -> the 11 scripts without sort||pop, C31_LEG=sort -> the sort||pop scripts, unset -> all (replay).
      * C31_QUICK=1 keeps the shorter scripts only (the quick tier has to fit in about a minute on a heavily shared machine). */
     const char *leg = getenv("C31_LEG"); int nall = (int)(sizeof(scenarios) / sizeof(scenarios[0]));
-    static const char *slow[] = { "chainsorted_popb_pushsorted", "fifo_chain_trypop_pop", "sort_pushb_pushf", "sort_popb_pushb" };
+    static const char *slow[] = { "chainsorted_popb_pushsorted", "fifo_chain_trypop_pop", "sort_pushb_pushf", "sort_popb_pushb", "isempty_pushf_popf", "sort_trypopf_fifopop" };
     static cs_scenario_t sel[32]; int nsel = 0;
     for (int k = 0; k < nall; k++) {
         int is_sort = k >= NMAIN, skip = 0;
